@@ -1092,9 +1092,19 @@ pub fn run_once(cfg: &ConcCfg, shard: &mut Shard, keep_sample: bool) -> RunOutco
     let t0 = Instant::now();
     let mut stuck = false;
     if !cfg!(miri) {
+        // 25 s, extended in steps of 5 s (up to 150 s) as long as hook sites are still being passed:
+        // a slow scenario on a loaded machine is not a stuck one
+        let mut deadline = Duration::from_secs(25);
+        let mut sites_seen = hooks::sites_passed_by_all();
         while shared.threads_done.load(SeqCst) < nthreads {
             std::thread::sleep(Duration::from_micros(200));
-            if t0.elapsed() > Duration::from_secs(25) {
+            if t0.elapsed() > deadline {
+                let now = hooks::sites_passed_by_all();
+                if now != sites_seen && deadline < Duration::from_secs(150) {
+                    sites_seen = now;
+                    deadline += Duration::from_secs(5);
+                    continue;
+                }
                 stuck = true;
                 break;
             }
@@ -1117,7 +1127,7 @@ pub fn run_once(cfg: &ConcCfg, shard: &mut Shard, keep_sample: bool) -> RunOutco
                 );
             }
             None => shard.inconclusive.push(format!(
-                "a thread did not finish within the wall-clock watchdog (25 s), run seed {}: {}",
+                "a thread did not finish within the wall-clock watchdog (25 s + extensions while progressing, 150 s at most), run seed {}: {}",
                 cfg.seed,
                 cfg.describe()
             )),
